@@ -118,6 +118,13 @@ def gen_case(seed, tier, index=0):
             files.append({"path": "newdir/n.py", "content": "n = 1\n"})
             untracked += ["newdir/n.py"]
         world["git"] = {"commit": True, "untracked": untracked}
+        if rng.chance(0.35):
+            # ignore rules that live in the user's Git configuration, not in the tree
+            world["home"] = world["home"] + [{"path": ".gitconfig", "content": "[core]\n\texcludesFile = ~/.gitignore_global\n"},
+                                             {"path": ".gitignore_global", "content": "*.local.py\nscratch/\n"}]
+            files.append({"path": "src/settings.local.py", "content": "secret = 1\n"})
+            files.append({"path": "scratch/notes.py", "content": "n = 1\n"})
+            world["git"]["use_home_config"] = True
     all_paths = [f["path"] for f in files] + [l["path"] for l in symlinks]
     ann_files = [p for p in all_paths if p.startswith(("src/", "docs/")) and not p.endswith((".license", ".log"))
                  and p not in ("src/link_file.py", "src/linkdir", "docs/rel_link.py", "src/empty.py", "docs/COPYING.md")]
@@ -162,7 +169,12 @@ def gen_case(seed, tier, index=0):
                              ["--multi-line"], ["--contributor", "Bob"]])
             steps.append(mp(["annotate", "-c", rng.pick(G.HOLDERS), "-l", rng.pick(G.VALID)] + opts + names))
         elif k == "convert":
-            steps.append(mp(["convert-dep5"]))
+            st = mp(["convert-dep5"])
+            if rng.chance(0.4):
+                st["faults"] = [rng.pick([{"op": "open-w", "path": "REUSE.toml", "errno": "ENOSPC"},
+                                          {"op": "write", "path": "REUSE.toml", "errno": "ENOSPC", "after": 10},
+                                          {"op": "open-w", "path": "REUSE.toml", "errno": "EISDIR"}])]
+            steps.append(st)
         elif k == "download":
             ids = rng.sample(G.VALID + ["LicenseRef-Custom", "Foo-1.0"], rng.randint(1, 2))
             if rng.chance(0.5) and "MIT" not in ids:
@@ -311,6 +323,12 @@ def oracle(case, results):
             elif cmd == "download" and d.get("before") is not None:
                 what = "altered-existing"
             vs.append({"sig": f"C15/{cmd}/{what}", "detail": f"{label}: {d.get('before')} -> {d.get('after')} touched={d.get('touched')}; argv={argv}; allowed={sorted(allowed)[:12]}"})
+        if cmd == "convert-dep5" and rec.get("exit") != 0 and ".reuse/dep5" in tree:
+            # 'replaces': a run that did not produce REUSE.toml must not have taken .reuse/dep5 away
+            gone = (diff.get(".reuse/dep5") or {"after": 1}).get("after") is None
+            if gone:
+                vs.append({"sig": "C15/convert-dep5/removed-without-replacement",
+                           "detail": f"exit={rec.get('exit')} exc={(rec.get('exc') or {}).get('type')} fired={rec.get('fired')}: .reuse/dep5 is gone, REUSE.toml: {(diff.get('REUSE.toml') or {}).get('after')}"})
         if cmd == "convert-dep5" and rec.get("exit") == 0:
             if (diff.get(".reuse/dep5") or {}).get("after") is not None or (diff.get("REUSE.toml") or {}).get("after") is None:
                 vs.append({"sig": "C15/convert-dep5/not-replaced", "detail": str({k: diff[k] for k in diff if k in ('.reuse/dep5', 'REUSE.toml')})[:300]})
